@@ -142,6 +142,7 @@ def run_property(pid, tier, seed, only_units=None, quiet=False):
     errors = []
     jobs = []
     reports = {}
+    del X.DEVIATIONS[:]
     for u in units:
         bdir = os.path.join(D.BUILD, u.name)
         try:
@@ -313,6 +314,7 @@ def run_property(pid, tier, seed, only_units=None, quiet=False):
             'rule': 'one evaluation = one (unit, size-variant) CBMC run with all inputs symbolic; non-trivial = generated >0 obligations',
             'repo_rev': repo_rev(),
             'tool_errors': errors,
+            'rule_count_deviations': list(X.DEVIATIONS)[:50],
             'safety_only_filter': safety_only,
             'functional_failures_not_counted_for_this_property': ignored_functional,
         },
